@@ -10,12 +10,12 @@ KEYW, KEYZ = "modelw-dV-not-gradient", "modelz-dV-not-gradient"
 def F(x): return fl(x)
 
 
-def model_case(rng, name):
+def model_case(rng, name, variant=None):
     """returns (model object, Coq expr for V, Coq expr for list of dV matrices, x sampler)"""
     import sys, mudslide.models
     S = sys.modules['mudslide.models.scattering_models']
     r = lambda lo, hi: rng.uniform(lo, hi)
-    dflt = rng.random() < 0.4
+    dflt = rng.random() < 0.4 if variant is None else variant == 0
     if name == "simple":
         p = dict(a=0.01, b=1.6, c=0.005, d=1.0) if dflt else dict(a=r(0.005, 0.05), b=r(0.5, 3), c=r(0.001, 0.02), d=r(0.3, 2))
         m = S.TullySimpleAvoidedCrossing(**p); x = [rng.choice([-1, 1]) * 10 ** r(-3, 1)]
@@ -63,7 +63,13 @@ def model_case(rng, name):
             return m, x, "modelw_V FOps fpi5 %s %s %s" % (F(eps), nat(N), F(x[0])), "[modelw_dV_code FOps fpi5 %s %s %s]" % (F(eps), nat(N), F(x[0]))
         return m, x, "modelz_V FOps %s %s %s" % (F(eps), nat(N), F(x[0])), "[modelz_dV_code FOps %s %s %s]" % (F(eps), nat(N), F(x[0]))
     if name == "shin-metiu":
-        m = S.ShinMetiu(nstates=rng.choice([2, 3, 4]), nel=rng.choice([32, 64])) if not dflt else S.ShinMetiu(nel=64)
+        if dflt:
+            m = S.ShinMetiu(nel=64)
+        else:
+            L = rng.choice([19.0, 19.0, 16.0]); kw = dict(nstates=rng.choice([2, 4, 5, 6]), nel=rng.choice([32, 64]), L=L, Rf=r(4.0, 6.0), Rl=r(2.5, 4.0), Rr=r(3.0, 5.0), m_el=rng.choice([1.0, 1.0, 2.0]))
+            if variant is not None and variant % 2 == 1: kw["nstates"] = rng.choice([4, 5, 6])
+            if rng.random() < 0.6 or (variant is not None and variant >= 2): kw["box"] = rng.choice([0.8 * L, 1.25 * L])       # electronic grid not coinciding with the ion-ion distance
+            m = S.ShinMetiu(**kw)
         return m, [r(-4, 4)], None, None
     raise KeyError(name)
 
@@ -137,8 +143,8 @@ def run(tier, seed):
     mc, mmeta, gc, gmeta, hc, hmeta, bad = [], [], [], [], [], [], []
     khits = {}
     for name in NAMES:
-        for it in range(per if name != "shin-metiu" else max(2, per // 3)):
-            m, x, eV, edV = model_case(rng, name)
+        for it in range(per if name != "shin-metiu" else max(4, per // 3)):
+            m, x, eV, edV = model_case(rng, name, variant=(it if name == "shin-metiu" and it < 4 else None))
             x = np.array(x, dtype=float)
             rep = "adiabatic"
             V = m.V(x); dV = m.dV(x)
